@@ -516,6 +516,15 @@ def run_scenario(sc, zone=None):
     info = {"ref": ref[0], "why": ref[1] if ref[0] != "ok" else "", "exc": type(exc).__name__ if exc else None}
     desc = f"{sc['rdtype']}{'/udp' if is_udp else ''} via {sc.get('via', 'direct')} on {kind}/relativize={rel}"
     # the all-or-nothing invariant, for every stream
+    if exc is not None and after == before and getattr(zone, "_write_txn", None) is not None:
+        fails.append(
+            (
+                "C13.error_leaves_zone_untouched",
+                f"{desc}: {type(exc).__name__} was raised and the zone is left with the transfer's write transaction still open (later writers block)",
+                {"site": "dns.xfr.Inbound.__exit__", "class": "failed transfer leaves its write transaction open"},
+            )
+        )
+        return fails, info
     if exc is not None and after != before:
         site = M.innermost_dns_site(exc)
         if isinstance(exc, dns.exception.FormError) and "after final SOA" in str(exc):
